@@ -33,6 +33,7 @@ CLI = ("2001:db8::c", 40000)
 SRV = ("2001:db8::1", 5683)
 METHODS = {"GET": GET, "PUT": PUT, "POST": POST, "FETCH": FETCH}
 LENS_Q = (0, 1, 16, 17, 33, 1024, 1025, 1124, 1125, 2049)
+# (plus two transfers of 65700 bytes in 16-byte blocks, see grid())
 LENS_T = (0, 1, 15, 16, 17, 31, 32, 33, 1023, 1024, 1025, 1124, 1125, 2048, 2049, 3000)
 
 
@@ -59,7 +60,7 @@ def transfer(method, l1, l2, sszx, cexp, reduce_at, reduce_to, misbehave, seed, 
         req = cli.ctx.request(m)
         w.loop.settle()
         n = 0
-        while not req.response.done() and n < 2000:
+        while not req.response.done() and n < 40000:
             n += 1
             if w.pool:
                 w.deliver(w.pool[0])
@@ -208,6 +209,9 @@ def grid(tier):
             for at in (0, 1, 2):
                 for l1 in {0: (17, 40, 100), 2: (65, 150, 330), 6: (1125, 2049, 3000)}[szx]:
                     out.append((method, l1, 20, szx, szx, None, None, ("ok-stateless", at)))
+    # block numbers that need the third byte of the option (4096 and up): 16-byte blocks of bodies beyond 64 KiB
+    out.append(("GET", 0, 65700, 0, 6, None, None, None))
+    out.append(("PUT", 65700, 20, 0, 0, None, None, None))
     # the application puts a Block2 option of its own on a managed request: NUM 0 is a size hint, NUM >= 1 asks for that block
     for method in ("GET", "FETCH"):
         for szx in (0, 2):
